@@ -332,18 +332,19 @@ pub fn combine(segs: &[Seg], src: usize, dst: usize) -> Vec<RefPath> {
     let cs: Vec<usize> = (0..n).filter(|i| segs[*i].core && segs[*i].len() >= 2).collect();
     // up-like uses: segment whose leaf is src, travelled against construction direction from the
     // leaf up to index i. down-like uses: leaf is dst, travelled in construction direction from j.
-    let ups: Vec<(usize, usize)> = nc.iter().filter(|s| segs[**s].last_as() == src).flat_map(|s| (0..segs[*s].len() - 1).map(move |i| (*s, i))).collect();
-    let downs: Vec<(usize, usize)> = nc.iter().filter(|s| segs[**s].last_as() == dst).flat_map(|s| (0..segs[*s].len() - 1).map(move |i| (*s, i))).collect();
+    // the index may be the leaf itself (only meaningful for peering: the path starts/ends on a peering link)
+    let ups: Vec<(usize, usize)> = nc.iter().filter(|s| segs[**s].last_as() == src).flat_map(|s| (0..segs[*s].len()).map(move |i| (*s, i))).collect();
+    let downs: Vec<(usize, usize)> = nc.iter().filter(|s| segs[**s].last_as() == dst).flat_map(|s| (0..segs[*s].len()).map(move |i| (*s, i))).collect();
     let up_use = |s: usize, i: usize, peer: Option<usize>| SegUse { chain: s, lo: i, hi: segs[s].len() - 1, cons_dir: false, peer };
     let down_use = |s: usize, j: usize, peer: Option<usize>| SegUse { chain: s, lo: j, hi: segs[s].len() - 1, cons_dir: true, peer };
     // (1) single non-core segment: destination on the up segment / source on the down segment
-    for (s, i) in &ups {
+    for (s, i) in ups.iter().filter(|(s, i)| *i + 1 < segs[*s].len()) {
         if segs[*s].chain.hops[*i].asn == dst {
             let hi = segs[*s].len() - 1;
             push(seg_hops_travel(&segs[*s], *i, hi, false, None), vec![up_use(*s, *i, None)], if *i == 0 { "up-only" } else { "on-path-up" }, part_mtu(&segs[*s], *i, hi, None));
         }
     }
-    for (s, j) in &downs {
+    for (s, j) in downs.iter().filter(|(s, j)| *j + 1 < segs[*s].len()) {
         if segs[*s].chain.hops[*j].asn == src {
             let hi = segs[*s].len() - 1;
             push(seg_hops_travel(&segs[*s], *j, hi, true, None), vec![down_use(*s, *j, None)], if *j == 0 { "down-only" } else { "on-path-down" }, part_mtu(&segs[*s], *j, hi, None));
@@ -364,7 +365,7 @@ pub fn combine(segs: &[Seg], src: usize, dst: usize) -> Vec<RefPath> {
         for (d, j) in &downs {
             let (su, sd) = (&segs[*u], &segs[*d]);
             let (hu, hd) = (su.len() - 1, sd.len() - 1);
-            if su.chain.hops[*i].asn == sd.chain.hops[*j].asn {
+            if su.chain.hops[*i].asn == sd.chain.hops[*j].asn && *i < hu && *j < hd {
                 let hops = join(vec![seg_hops_travel(su, *i, hu, false, None), seg_hops_travel(sd, *j, hd, true, None)]);
                 let kind = if *i == 0 && *j == 0 { "up-down" } else { "shortcut" };
                 push(hops, vec![up_use(*u, *i, None), down_use(*d, *j, None)], kind, part_mtu(su, *i, hu, None).min(part_mtu(sd, *j, hd, None)));
